@@ -125,7 +125,7 @@ impl Srv {
         let mut peer = Peer::new();
         let results = results_json(&mut peer, &rs);
         let mut srv = Srv { s, peer, clock, reqs: vec![], streams: vec![], connected: false, wire, clock_mode: 0, frag: None, pending: vec![] };
-        srv.wire_record(&rs);
+        srv.wire_record(&rs, "new");
         let ev = json!({"ev":"New","cfg":cfgj,"res":"ok","results":results,"probe":probe_json(&srv.s),"clk":w(clock as u32)});
         (srv, ev)
     }
@@ -152,10 +152,10 @@ impl Srv {
         self.clock = next_clock(rng, self.clock, self.clock_mode);
     }
 
-    fn wire_record(&mut self, rs: &[ServerSessionResult]) {
+    fn wire_record(&mut self, rs: &[ServerSessionResult], site: &str) {
         let taps = rml_rtmp::verif::tap_drain();
         if let Some(wl) = self.wire.as_mut() {
-            wl.record(&packets_of(rs), taps);
+            wl.record(&packets_of(rs), taps, site);
         }
     }
 
@@ -181,8 +181,8 @@ impl Srv {
         let _ = rml_rtmp::verif::tap_drain();
         let r = catch_unwind(AssertUnwindSafe(|| self.s.handle_input(bytes)));
         match &r {
-            Ok(Ok(rs)) => self.wire_record(rs),
-            _ => self.wire_record(&[]),
+            Ok(Ok(rs)) => self.wire_record(rs, "handle_input"),
+            _ => self.wire_record(&[], "handle_input"),
         }
         let (res, results) = match r {
             Ok(Ok(rs)) => ("ok".to_string(), results_json(&mut self.peer, &rs)),
@@ -201,9 +201,10 @@ impl Srv {
             let s = &mut self.s;
             catch_unwind(AssertUnwindSafe(|| f(s)))
         };
+        let site = desc["m"].as_str().unwrap_or("call").to_string();
         match &r {
-            Ok(Ok(rs)) => self.wire_record(rs),
-            _ => self.wire_record(&[]),
+            Ok(Ok(rs)) => self.wire_record(rs, &site),
+            _ => self.wire_record(&[], &site),
         }
         let (res, results) = match r {
             Ok(Ok(rs)) => ("ok".to_string(), results_json(&mut self.peer, &rs)),
